@@ -621,6 +621,7 @@ class Node:
             topnodes = list(child._root.children)  # copy: don't reorder the source
             if isinstance(before, (int, Node)) or before is True:
                 topnodes.reverse()
+            n = None  # source tree may be empty
             for n in topnodes:
                 self.add_child(n, before=before, deep=deep)
             return n  # need to return a node
